@@ -5,7 +5,7 @@ package sticky
 func VerifC25_stickyEager() {
 	var in *verifGroupIn
 	if verifThorough() {
-		in = verifShape(1, 2, []int{3, 2}, true, false)
+		in = verifShape(1, 2, []int{2, 2}, true, false)
 	} else {
 		in = verifShape(1, 2, []int{1, 1}, true, false)
 	}
@@ -19,7 +19,7 @@ func VerifC25_stickyEager3() {
 	var in *verifGroupIn
 	if verifThorough() {
 		in = verifShape(3, 3, []int{2, 1}, false, false)
-		in.verifClaims(false)
+		in.verifOwnerClaims(true)
 	} else {
 		in = verifShapeSubs(3, 3, []int{1, 1}, false, false, true)
 		in.verifOwnerClaims(false)
@@ -33,7 +33,7 @@ func VerifC25_stickyEager3() {
 func VerifC25_stickyCooperative() {
 	var in *verifGroupIn
 	if verifThorough() {
-		in = verifShape(1, 2, []int{3, 2}, true, false)
+		in = verifShape(1, 2, []int{2, 2}, true, false)
 	} else {
 		in = verifShape(1, 2, []int{2, 1}, false, false)
 	}
@@ -48,7 +48,14 @@ func VerifC25_stickyCooperative() {
 func VerifC25_stickySymbolicGenerations() {
 	var in *verifGroupIn
 	if verifThorough() {
-		in = verifShape(2, 3, []int{2, 1}, false, false)
+		if verifPick(2) == 0 {
+			in = verifShape(2, 2, []int{2, 1}, false, false)
+		} else {
+			in = verifShapeSubs(3, 3, []int{1, 1}, false, false, true)
+			if len(in.subs[0]) < 2 {
+				return // three members: m0 subscribes to both topics
+			}
+		}
 	} else {
 		in = verifShapeSubs(2, 2, []int{1, 1}, false, false, true)
 	}
@@ -57,7 +64,7 @@ func VerifC25_stickySymbolicGenerations() {
 	// the cooperative input path falls back to the eager one (UserData) for negative
 	// generations, so quick only runs it
 	var members []GroupMember
-	if verifThorough() && verifPick(2) == 0 {
+	if verifThorough() && in.nMembers == 2 && verifPick(2) == 0 {
 		members = in.eagerMembers()
 	} else {
 		members = in.coopMembers()
@@ -71,7 +78,7 @@ func VerifC25_stickySymbolicGenerations() {
 func VerifC25_stickyWildClaims() {
 	var in *verifGroupIn
 	if verifThorough() {
-		in = verifShape(1, 2, []int{2, 1}, true, true)
+		in = verifShape(1, 2, []int{2, 1}, false, true)
 		in.verifClaims(true)
 	} else {
 		in = verifShapeSubs(2, 2, []int{1, 1}, false, true, true)
@@ -93,15 +100,21 @@ func VerifC25_stickyWildClaims() {
 // may be shorter or longer than the partition count or miss a topic.
 func VerifC25_stickyRacks() {
 	var in *verifGroupIn
+	wide := false // thorough: two members on (2,2) with odd rack lists, or three members
 	if verifThorough() {
-		in = verifShape(2, 3, []int{2, 2}, false, false)
+		if verifPick(2) == 0 {
+			in = verifShape(2, 2, []int{2, 2}, false, false)
+			wide = true
+		} else {
+			in = verifShapeSubs(3, 3, []int{2, 1}, false, false, true)
+		}
 	} else {
 		in = verifShapeSubs(2, 2, []int{2, 1}, false, false, true)
 	}
 	// a few prior-ownership patterns (racks only steer unassigned partitions); no
 	// conflicting claims, so generations are irrelevant
 	nPatterns := 2
-	if verifThorough() {
+	if wide {
 		nPatterns = 3
 	}
 	switch verifPick(nPatterns) {
@@ -119,7 +132,7 @@ func VerifC25_stickyRacks() {
 	in.fixedGens = true
 	racks := [...]string{"", "a", "b"}
 	var members []GroupMember
-	if verifThorough() && verifPick(2) == 1 {
+	if verifThorough() && in.nMembers == 3 && verifPick(2) == 1 {
 		members = in.coopMembers()
 	} else {
 		members = in.eagerMembers()
@@ -139,7 +152,7 @@ func VerifC25_stickyRacks() {
 		}
 		partitionRacks[t] = rs
 	}
-	if verifThorough() {
+	if wide {
 		t := in.order[0]
 		switch verifPick(4) {
 		case 1:
@@ -157,10 +170,11 @@ func VerifC25_stickyRacks() {
 }
 
 // VerifC25_stickyDuplicateSubscription: a member's subscription list names a topic twice
-// (the wire format is a list; the kgo wrapper sorts but does not de-duplicate it).
+// (the wire format is a list; the kgo wrapper sorts but does not de-duplicate it). Two
+// members, one partition per topic, no prior ownership.
 func VerifC25_stickyDuplicateSubscription() {
-	in := verifShapeSubs(2, 2, []int{2, 1}, true, false, true)
-	in.verifOwnerClaims(false)
+	in := verifShapeSubs(2, 2, []int{0, 0}, true, false, true)
+	in.topics["t0"], in.topics["t1"] = 1, 1
 	in.fixedGens = true
 	members := in.eagerMembers()
 	d := verifPick(in.nMembers)
